@@ -166,8 +166,8 @@ pub struct Case {
 
 /// Programs for one parameter set.
 pub fn gen_cases(s: &SetInfo, ctx: &Ctx) -> Vec<Case> {
-    let mut rng = ctx.rng(&format!("field:{}", s.name));
-    let quick = ctx.quick();
+    let mut rng = ctx.rng(&format!("field:{}{}", s.name, if ctx.search() { ":search" } else { "" }));
+    let quick = crate::small(ctx);
     let mut bv = boundary_values(s, &mut rng);
     if quick {
         bv.retain(|(n, _)| !matches!(n.as_str(), "2" | "half" | "base+1" | "base^2" | "base^(n-1)+1"));
@@ -606,7 +606,7 @@ where
     }
     let Some(rec) = record::<F, K>(&case.ops) else { return };
     let mut rng = ctx.rng(&format!("tamper:{}:{}", s.name, case.kind));
-    let fl = faults::<F>(s, &mut rng, ctx.quick());
+    let fl = faults::<F>(s, &mut rng, crate::small(ctx));
     let prog = render_prog(&case.ops);
     let mut targets: Vec<usize> = vec![];
     let mut others: Vec<usize> = vec![];
@@ -656,14 +656,14 @@ where
 {
     let s = set_info::<F, K>(name);
     let cases = gen_cases(&s, ctx);
-    crate::gates::geval::<F, K>(ctx, name, if ctx.quick() { 6 } else { 40 });
+    crate::gates::geval::<F, K>(ctx, name, if crate::small(ctx) { 6 } else { 40 });
     let mut done_rows = 0usize;
     let mut done_wrong = 0;
     let mut done_tamper = std::collections::BTreeMap::<String, usize>::new();
     for case in &cases {
         let Some(run) = run_case::<F, K>(ctx, &s, case) else { continue };
         if run.verdict == Ok(true) && case.ops.iter().any(|o| o.name == "pi") {
-            let lim = if ctx.quick() { 3 } else { 30 };
+            let lim = if crate::small(ctx) { 3 } else { 30 };
             if done_wrong < lim && matches!(case.kind.as_str(), "binary" | "unary" | "random" | "chain-double" | "regression") {
                 done_wrong += 1;
                 wrong_public::<F, K>(ctx, &s, case);
@@ -671,20 +671,20 @@ where
         }
         if run.verdict == Ok(true)
             && matches!(case.kind.as_str(), "binary" | "div" | "unnormalised" | "chain-sub" | "chain-double" | "random" | "lc" | "mulc" | "frombits")
-            && done_rows < if ctx.quick() { 60 } else { 600 }
+            && done_rows < if crate::small(ctx) { 60 } else { 600 }
         {
             if let Some(rec) = record::<F, K>(&case.ops) {
                 done_rows += 1;
                 crate::gates::rows::<F, K>(ctx, name, &rec, 4);
             }
         }
-        let per_kind = if ctx.quick() { 1 } else { 6 };
+        let per_kind = if crate::small(ctx) { 1 } else { 6 };
         let tamper_kinds: &[&str] = if ctx.quick() { &["binary", "div", "unnormalised"] } else { &["binary", "div", "unnormalised", "chain-sub", "inv", "lc"] };
         if run.verdict == Ok(true) && tamper_kinds.contains(&case.kind.as_str()) {
             let e = done_tamper.entry(case.kind.clone()).or_insert(0);
             if *e < per_kind {
                 *e += 1;
-                tamper_sweep::<F, K>(ctx, &s, case, if ctx.quick() { 6 } else { 60 });
+                tamper_sweep::<F, K>(ctx, &s, case, if crate::small(ctx) { 6 } else { 60 });
             }
         }
     }
